@@ -245,6 +245,8 @@ def evaluate(run, cases):
             ns = int(t["ts"]["ns"])
             tab[ns] = tz_offset(c["rtz"], ns // NS)
         c["offsets"] = sorted(set(tab.values()))
+        ldays = [(ns + tab[ns] * NS) // (86400 * NS) for ns in sorted(tab)]
+        c["day_inversion"] = any(a > b for a, b in zip(ldays, ldays[1:]))   # the F10 shape: local date decreases with time
         impl = "None" if "ok" not in grp else "(Some %s)" % g_groups(grp["ok"])
         terms.append("c13_case %s %s %s %s %s" % (
             GBS[c["group_by"]], g_list(["(%s, %s)" % (g_Z(k), g_Z(v)) for k, v in sorted(tab.items())]),
@@ -298,7 +300,7 @@ def main(run):
     stages = evaluate(run, cases)
     distinct = set()
     dist = {"fixed_zone": 0, "named_zone": 0, "with_selector": 0, "selector_emptied_a_group": 0, "four_digit_years": 0,
-            "named_zone_two_offsets": 0, "in_exact_domain": 0, "corpus": 0}
+            "named_zone_two_offsets": 0, "in_exact_domain": 0, "corpus": 0, "local_date_decreases_with_time": 0}
     by_gb = {}
     for c in cases:
         if "bits" not in c:
@@ -311,9 +313,8 @@ def main(run):
         dist["four_digit_years"] += bool(bits & 8)
         dist["named_zone_two_offsets"] += (c["rtz"] not in FIXED and len(c["offsets"]) > 1)
         dist["in_exact_domain"] += bool(bits & 4)
+        dist["local_date_decreases_with_time"] += bool(c.get("day_inversion"))
         dist["corpus"] += c["src"].startswith("corpus/")
-        if c["titles"] is not None and c["text_titles"] is not None and c["names"] and len(c["titles"]) >= 1:
-            pass
         if c["titles"] and len(c["titles"]) >= 2:
             distinct.add(json.dumps(c["impl"], sort_keys=True))
         if len(run.cov["samples"]) < 3 and c["src"] == "gen":
